@@ -8,6 +8,7 @@
   namespaces.  Helper lemmas: `Sio/Lemmas/Rooms*.lean`.
 -/
 import Sio.Lemmas.RoomsHist
+import Sio.Lemmas.RoomsAlgebra
 namespace Sio.C03
 open Sio.Rooms
 
@@ -250,5 +251,50 @@ theorem rooms_spec (ops : List Op) (ns : Ns) (sid : Sid) (r : Room) :
 
 example : getRooms demo nsA s1 = [s1, rR, rQ, s2] := by decide
 example : getRooms demo nsB s1 = [] := by decide
+
+/-! ## Algebra of the room operations (session 4)
+
+Repetition and order of room operations are not observable: stated on `abs`, i.e. on every
+membership / connection query, and carried to the recipients of any later emit. -/
+
+/-- entering a room twice is the same as entering it once: observable membership and connections
+    are unchanged by the repetition -/
+theorem enter_idempotent {s : St} (h : Inv s) (ns : Ns) (sid : Sid) (r : Room) :
+    abs (apply (apply s (.enter ns sid r)) (.enter ns sid r)) = abs (apply s (.enter ns sid r)) := by
+  rw [refines (h.apply _), refines h, Spec_enter_idem]
+
+theorem leave_idempotent {s : St} (h : Inv s) (ns : Ns) (sid : Sid) (r : Room) :
+    abs (apply (apply s (.leave ns sid r)) (.leave ns sid r)) = abs (apply s (.leave ns sid r)) := by
+  rw [refines (h.apply _), refines h, Spec_leave_idem]
+
+/-- the order in which clients enter rooms is not observable -/
+theorem enter_commutes {s : St} (h : Inv s) (ns ns' : Ns) (sid sid' : Sid) (r r' : Room) :
+    abs (apply (apply s (.enter ns sid r)) (.enter ns' sid' r'))
+      = abs (apply (apply s (.enter ns' sid' r')) (.enter ns sid r)) := by
+  rw [refines (h.apply _), refines h, refines (h.apply _), refines h, Spec_enter_comm]
+
+/-- what an emit reaches depends only on the observable state (`abs`): two manager states with the
+    same memberships and connections serve the same recipients -/
+theorem recipients_of_abs {s s' : St} (h : Inv s) (h' : Inv s') (e : abs s = abs s')
+    (ns : Ns) (t : Target) (skip : List Sid) (sid : Sid) :
+    sid ∈ (recipients s ns t skip).map Prod.fst ↔ sid ∈ (recipients s' ns t skip).map Prod.fst := by
+  have hm : isMember s = isMember s' := congrArg Spec.member e
+  have hc : eioOf s = eioOf s' := congrArg Spec.conn e
+  rw [recipients_exact h, recipients_exact h']
+  unfold connected
+  rw [hc]
+  have : addressedBy s ns sid t ↔ addressedBy s' ns sid t := by
+    cases t <;> simp [addressedBy, hm]
+  rw [this]
+
+/-- so the recipients of any emit are the same whether a client entered a room once or twice, and
+    whichever of two clients entered first -/
+theorem recipients_enter_twice {s : St} (h : Inv s) (ns : Ns) (sid : Sid) (r : Room)
+    (ns' : Ns) (t : Target) (skip : List Sid) (x : Sid) :
+    x ∈ (recipients (apply (apply s (.enter ns sid r)) (.enter ns sid r)) ns' t skip).map Prod.fst ↔
+    x ∈ (recipients (apply s (.enter ns sid r)) ns' t skip).map Prod.fst :=
+  recipients_of_abs ((h.apply _).apply _) (h.apply _) (enter_idempotent h ns sid r) ns' t skip x
+
+example : Inv demo := Inv.nil.run demoOps
 
 end Sio.C03
